@@ -157,7 +157,8 @@ func c02RunBatch(m *vk.M, b int, racing bool) {
 				case x < 6 && fails < 4:
 					fails++
 					ok = c02ScPanic(c, e, do, rt, c02GenPanic(r, false), r)
-				case x < 8:
+				case x < 8 && fails < 4:
+					fails++
 					ok = c02ScPanic(c, e, do, rt, c02GenPanic(r, true), r)
 				case x < 9 && hasFastTimeout:
 					ok = c02ScCancel(c, e, do, rt, c02GenCancel(r))
